@@ -14,7 +14,7 @@ RULE = ("rounded_at: random master location sets (1-3 axes, corners, intermediat
 TRUSTED = ["uharfbuzz 0.52 as the independent variation engine"]
 ASSUMPTIONS = ["the Coq model covers the rounded delta computation and evaluation at a master given the weight rows; master sorting, support "
                "computation and the table mergers are checked by correspondence of the evaluated values and by the HarfBuzz sweeps",
-               "budget at a master: 0.5 (delta rounding) + 0.5 (IUP optimisation tolerance) for outlines, +1 for integer advances"]
+               "budget at a master: 0.5 (delta rounding) + 0.5 (IUP optimisation tolerance) + 0.1 (F2Dot14 quantisation of the location) for outlines, +1 for integer advances"]
 
 def N(tier, q, t): return q if tier == "quick" else t
 
@@ -251,7 +251,8 @@ def compare_at_masters(vf_bytes, masters, optimize, stats, cff, extra_texts=()):
     for name, user, data, sp in masters:
         mf = TTFont(io.BytesIO(data)); morder = mf.getGlyphOrder()
         hv = HBFont(vf_bytes, order, variations=dict(user)); hm = HBFont(data, morder)
-        tol = 0.5 + (0.5 if optimize else 0.0) + 0.01
+        # 0.5 delta rounding (+0.5 IUP tolerance) + 0.1: the master's normalised coordinate is reached through F2Dot14-quantised fvar/avar values
+        tol = 0.5 + (0.5 if optimize else 0.0) + 0.1
         for g in morder:
             if g not in order: return "glyph %r of master %s is not in the built font" % (g, name)
             a = _pts(hv.outline(order.index(g))); b = _pts(hm.outline(morder.index(g)))
